@@ -4,6 +4,7 @@ import OcVerif.Driver.Queue
 import OcVerif.Driver.QConc
 import OcVerif.Driver.Nio
 import OcVerif.Driver.TLCache
+import OcVerif.Driver.HookProc
 import OcVerif.Driver.Timeouts
 import OcVerif.Driver.RtWait
 import OcVerif.Driver.RtLoop
@@ -40,6 +41,7 @@ def dispatch (comp : String) : Option (String → String → Verdict) :=
   | "qconc" => some Driver.QConc.drive
   | "nio" => some Driver.Nio.drive
   | "tlcache" => some Driver.TLCache.drive
+  | "hookproc" => some Driver.HookProc.drive
   | "timeouts" => some Driver.Timeouts.drive
   | "rtwait" => some Driver.RtWait.drive
   | "rtloop" => some Driver.RtLoop.drive
